@@ -11,20 +11,20 @@ body and a function-interpretation body are handled by *fresh* `Substituter` obj
 is shared between walks with different maps. The model is therefore the recursive function the walk
 computes (that a `DagWalker` computes its recursive definition is `PySMT/Proofs/Walker*.lean`).
 
-* `MGSubstituter.walk_identity_or_replace / walk_forall / walk_exists` (`substituter.py:268-300`):
+* `MGSubstituter.walk_identity_or_replace / walk_forall / walk_exists` (`substituter.py:270-299`):
   the children are processed first (post-order), then the **original** node is looked up in the
   map; only when it is not a key the node is rebuilt.
-* `MSSubstituter.walk_replace / walk_forall / walk_exists` (`substituter.py:325-345`): the node is
+* `MSSubstituter.walk_replace / walk_forall / walk_exists` (`substituter.py:326-343`): the node is
   rebuilt from the processed children, then the **rebuilt** node is looked up.
-* `Substituter._push_with_children_to_stack` (`substituter.py:134-167`): at a quantifier the map
+* `Substituter._push_with_children_to_stack` (`substituter.py:134-173`): at a quantifier the map
   is restricted to the keys none of whose free symbols is bound by the quantifier, the body is
   substituted by a fresh substituter of the same class, and `walk_forall/walk_exists` is applied
   to the result with the *unrestricted* map.
-* `Substituter.walk_function` (`substituter.py:257-265`): an application of an interpreted symbol
+* `Substituter.walk_function` (`substituter.py:251-259`): an application of an interpreted symbol
   is replaced by `FunctionInterpretation.interpret(env, args)` = the body with the formal
   parameters replaced by the (already substituted) actual arguments, computed by a fresh
-  substituter of the class of `env.substituter` and no interpretations (`substituter.py:84-95`).
-* `Substituter.substitute` (`substituter.py:169-255`): argument validation.
+  substituter of the class of `env.substituter` and no interpretations (`substituter.py:80-91`).
+* `Substituter.substitute` (`substituter.py:175-249`): argument validation.
 -/
 namespace PySMT.Subst
 open PySMT.Build
@@ -37,7 +37,7 @@ def lookup : TMap → Term → Option Term
   | [], _ => none
   | (k, v) :: rest, t => if k = t then some v else lookup rest t
 
-/-- no free symbol of `k` is bound by `vs` (`substituter.py:147-149`) -/
+/-- no free symbol of `k` is bound by `vs` (`substituter.py:152-159`) -/
 def keyFree (vs : List Sym) (k : Term) : Bool := k.fv.all (fun m => !vs.contains m)
 
 /-- the 'reduced' map used in the body of a quantifier binding `vs` -/
